@@ -87,6 +87,11 @@ CHAINS = {
     "mixed": lambda n: "a" + ".b()[0]" * (n // 3),
     "compare-and-bool": lambda n: " or ".join(f"a{i} < {i}" for i in range(n // 2)),
     "statements": lambda n: "".join(f"x{i} = f(a.b)[{i}] + 1\n" for i in range(n)),
+    "nested-parens": lambda n: "(" * (n // 30) + "a" + ")" * (n // 30),
+    "nested-lists": lambda n: "[" * (n // 32) + "a" + "]" * (n // 32),
+    "nested-calls": lambda n: "f(" * (n // 24) + "a" + ")" * (n // 24),
+    "nested-dicts": lambda n: "{1: " * (n // 34) + "a" + "}" * (n // 34),
+    "nested-blocks": lambda n: "".join(" " * i + "if a:\n" for i in range(n // 7)) + " " * (n // 7) + "x = 1\n",
     "pipeline": lambda n: "$(" + " | ".join(f"c{i} -x" for i in range(n // 2)) + ")",
 }
 
@@ -109,7 +114,10 @@ def check_deep(rec, case):
     if quiet.kind == "hang" or loud.kind == "hang":
         rec.inconclusive["deep-chain-timeout"] += 1
         return
-    if quiet.canon() != loud.canon():
+    def key(o):  # (where exactly the interpreter's stack ran out is not part of the outcome)
+        return ("raise", o.etype) if o.kind == "raise" and o.etype == "RecursionError" else o.canon()
+
+    if key(quiet) != key(loud):
         rec.fail(case, f"verbose-changes-outcome:{quiet.kind}->{loud.kind}", {"mode": mode, "py_version": None, "recursion_limit": 1000, "quiet": [str(x)[:120] for x in quiet.brief()], "verbose": [str(x)[:200] for x in loud.brief()]})
 
 
@@ -234,8 +242,11 @@ def search(rec, ctx):
 
     fams = sorted(CHAINS)
     deep = [(f, n) for f in fams for n in ((300, 1100) if not ctx.thorough else (150, 300, 700, 1100, 1500, 2500))]
+    # (for the nested-* families n is scaled down to 4..50 levels / 20..230 blocks: the band in which the default recursion
+    # limit gives out; whatever the quiet parse does there -- tree or RecursionError -- the traced one must do too)
+    deep += [(f, n) for f in fams if f.startswith("nested-") for n in (600, 780, 900, 1000, 1200, 1500)]
     for f, n in ctx.shard(deep):
-        check(rec, {"deep": True, "family": f, "n": n, "mode": "exec" if f in ("statements", "pipeline") else "eval"})
+        check(rec, {"deep": True, "family": f, "n": n, "mode": "exec" if f in ("statements", "pipeline", "nested-blocks") else "eval"})
 
     def gen(rnd):
         r = rnd.random()
